@@ -816,6 +816,8 @@ def getitem(ip, v, k):
             st = ops.const_int(k.step) if k.step is not None else None
             if (k.start is not None and a is None) or (k.stop is not None and b is None) or (k.step is not None and st is None):
                 raise Unsupported('symbolic slice of a concrete list')
+            if st == 0:
+                ctx.raise_exc('ValueError', 'slice step cannot be zero')
             return PyList(v.items[a:b:st])
         c = ops.const_int(k)
         if c is None:
